@@ -13,7 +13,7 @@ CHECKS = {
 CHECKS['C11'] = ('exhaustive enumeration of short add-histories + Hypothesis-generated add/load histories, compared with a reference resolver',
   'Model-based testing against an independent reference resolver: all add-histories up to length 2 (quick) / 3 (thorough) over a 5x4x6 alphabet enumerated completely, plus generated histories up to 30 steps (add with enum- or string-valued arguments, load of rule lists, load of the exported recipe), queried on a 6x8 (operator, scope) grid after every step; refused adds must raise ValueError and leave the state unchanged. Exhaustive only within the stated alphabet and length bound.',
   'The support predicate is taken from the library (check_op_quantization_config); Python re semantics trusted.', 'DESIGN.md 4 C11')
-PIPE = 'Hypothesis-generated float models (DAGs over the 21 supported + 7 unsupported op kinds, multi-consumer tensors, repeated operands, exported-and-consumed tensors, shared constants/buffers, 1..3 subgraphs, random valid op order) built directly as flatbuffers, crossed with shipped recipes or generated rule sequences and calibration inputs, pushed through the public Quantizer API; '
+PIPE = 'Hypothesis-generated float models (DAGs over the 21 supported + 7 unsupported op kinds, multi-consumer tensors, repeated operands, hub tensors with >= 9 consumer slots, exported-and-consumed tensors, tensors listed twice in the outputs, arguments returned unchanged, shared constants/buffers, 1..3 subgraphs incl. operator-less ones, signature entries and signature list in another order than the subgraphs, dynamic batch signatures, random valid op order) built directly as flatbuffers and handed over as a mutable bytearray, crossed with shipped recipes or generated rule sequences (incl. sharer-directed treatments) and calibration inputs (also batched, or collected under the other weight granularity), optionally after earlier uses of the same Quantizer object, pushed through the public Quantizer API; '
 CHECKS['C01'] = ('property-based testing: generated model x recipe x data, structural well-formedness oracle + LiteRT interpreter load/invoke',
   PIPE + 'every returned model is raw-parsed and checked for index ranges, unique names, single producers, execution order, graph I/O and signature entries, then allocated and invoked per signature in the interpreter. Held on all explored cases; no absence claim.',
   'Trusts the flatbuffer schema classes and the LiteRT interpreter; the interpreter clause is skipped for skip_checks recipes; a worker killed by a signal while running a case is reported as a violation.', 'DESIGN.md 4 C01')
@@ -42,10 +42,10 @@ CHECKS['C12'] = ('property-based testing: generated update/load histories, JSON 
   'Recipes reachable by generated update/load sequences (all algorithms, skip_checks, enum- or string-valued arguments, default config, no_quantize rules with a config) are exported, passed through json.dumps/loads and loaded into a fresh Quantizer: the exported recipes must be equal, resolve identically on a 6x8 (operator, scope) grid, and quantize a generated model with the same statistics to byte-identical output; save() must write exactly that JSON and model. Every file under recipes/ must load and the default files must re-export to themselves (complete enumeration).',
   'Recipe equality is judged on the JSON level (what save() writes).', 'DESIGN.md 4 C12')
 CHECKS['C14'] = ('property-based testing over generated call histories (sequence generation with shrinking), snapshot-equality and fresh-instance / fresh-process differential oracles',
-  'Generated histories of recipe / calibrate (optionally resumed) / quantize (with the SHARED calibration result object) / validate calls on one or two Quantizer objects over a generated model: after every call each caller-owned object (model bytes, recipe list passed in, calibration data, previous result, calibration result, test data) must be deep-equal (numpy-aware: dtype, shape, values, key order) to its snapshot; every quantize() output must have the sha256 of a fresh Quantizer given deep copies of the same arguments; a sample of triples is re-executed in fresh processes under PYTHONHASHSEED 1 and 12345.',
+  'Generated histories of recipe (shipped, update calls, or a caller-owned list of dicts; optionally a blockwise rule) / single update on top of a used recipe / calibrate (optionally resumed) / quantize (with the SHARED calibration result object) / validate calls on one or two Quantizer objects over a generated model handed over as one mutable bytearray; plus a phase in which a model file is quantized by path, a same-size variant is written to the same or another path and quantized by path, and both must equal Quantizer(bytes): after every call each caller-owned object (model bytes, recipe list passed in, calibration data, previous result, calibration result, test data) must be deep-equal (numpy-aware: dtype, shape, values, key order) to its snapshot; every quantize() output must have the sha256 of a fresh Quantizer given deep copies of the same arguments; a sample of triples is re-executed in fresh processes under PYTHONHASHSEED 1 and 12345.',
   'load_config_policy excluded from the alphabet; fresh-process comparison is sampled (1/32 quick, 1/12 thorough of the cases that quantize).', 'DESIGN.md 4 C14')
 CHECKS['C09'] = ('property-based testing: datasets x resume splits, reference statistics recomputed from the check\'s own interpreter run and moving-average fold',
-  'Generated models (1..2 signatures) x calibration-requiring recipes x datasets of 1..6 samples of different magnitudes x drawn cut points: every runtime statistic returned by calibrate() must equal (rtol 1e-5) the 0.95 moving average, in dataset order with the first sample initialising, of the per-sample min/max the check reads from its own float interpreter; every constant statistic must be a true per-tensor or single-axis min/max (the kernel axis for channel-wise weights); calibrating in resumed sessions must equal the single pass (rtol 1e-6) and leave the previous result deep-equal to its snapshot.',
+  'Generated models (1..2 signatures; a fifth with a stateful SVDF operator) x calibration-requiring recipes x datasets of 1..6 samples of different magnitudes, passed as list, one-shot iterator or generator, x drawn cut points: every runtime statistic returned by calibrate() must equal (rtol 1e-5) the 0.95 moving average, in dataset order with the first sample initialising, of the per-sample min/max the check reads from its own float interpreter; every constant statistic must be a true per-tensor or single-axis min/max (the kernel axis for channel-wise weights); calibrating in resumed sessions must equal the single pass (rtol 1e-6) and leave the previous result deep-equal to its snapshot.',
   'LiteRT float interpreter with preserved tensors trusted; EMA recomputed in float64.', 'DESIGN.md 4 C09')
 CHECKS['C15'] = ('property-based testing: sharing-biased model generator, byte-level buffer/tensor consistency oracle + per-operand mode oracle',
   'Generated models built around sharing (one constant tensor with several consumers, several tensors on one buffer within and across subgraphs, converter-style de-duplication) x recipes giving the sharers equal, different or no quantization: quantize() may raise; if it returns, every tensor referencing a buffer must have a dtype whose implied byte length equals the buffer length and equal parameters, every original constant must still denote its values within one step (bit-equal when untouched), and every consumer must read the operand class its mode prescribes (C03 oracle), so a float consumer never reads integer bytes and vice versa.',
